@@ -43,6 +43,7 @@ def jobs(ctx, names, reps=1, record=False, snapshots=False, grid_for=None):
             add("terraces", nm, {"max_cycles": 30, "population_size": P0}, search.cont_task(obj="terraces", minmax="min", seed=sd(), dim=3, lo=-4.0, hi=4.0))
             if "discmulti" in works.get(nm, []):
                 add("small-discrete", nm, {"max_cycles": 60, "population_size": P0}, {"vars": [("discmulti", [5, 5, 5, 5])], "obj": r.choice(["sphere", "abs"]), "minmax": mm(), "seed": sd()})
+            add("nan-swallowing", nm, {"max_cycles": 40, "population_size": P0}, search.cont_task(obj="pyviolation", minmax="min", seed=sd(), dim=3, lo=-5.0, hi=5.0))
             add("plateaus", nm, {"max_cycles": cyc, "population_size": P0}, search.cont_task(obj="step", minmax="min", seed=sd(), dim=2, lo=-3.0, hi=3.0))
             add("flat-scale", nm, {"max_cycles": 30, "population_size": P0}, search.cont_task(obj="flatscale", minmax=mm(), seed=sd(), dim=3))
             add("converged", nm, {"max_cycles": r.choice([300, 450]), "population_size": P0}, search.cont_task(obj="sphere", minmax="min", seed=sd(), dim=2, lo=-5.0, hi=5.0))
